@@ -255,12 +255,26 @@ pub fn bool_expr(r: &mut Rng, depth: usize) -> String {
 }
 
 pub fn any_expr(r: &mut Rng, depth: usize) -> String {
-    match r.below(8) {
+    match r.below(9) {
         0 | 1 | 2 => num_expr(r, depth),
         3 | 4 => bool_expr(r, depth),
         5 => format!("concat({}, {})", r.pick(&["s", "k", "n", "x"]), str_lit(r)),
         6 => format!("{}(s)", r.pick(&["toLowerCase", "toUpperCase", "parseHex"])),
-        _ => format!("substring(s, {}, {})", r.range(0, 3), r.range(0, 6)),
+        7 => format!("substring(s, {}, {})", r.range(0, 3), r.range(0, 6)),
+        // the text of arrays / objects (`impl Display for Value` falling back on Debug)
+        _ => {
+            let c = *r.pick(&["arr", "o", "o.q", "o.r", "arr[0]", "m", "o.q[0]"]);
+            match r.below(8) {
+                0 => format!("concat({}, {})", c, r.pick(&["o", "arr", "o.q", "x", "\"|\""])),
+                1 => format!("length({})", r.pick(&["arr[0]", "o.q[1]", "concat(o)", "concat(arr)", "concat(o.q, m)", "o.r"])),
+                2 => format!("contains({}, {})", c, r.pick(&["\"p\"", "\"Int(\"", "'Str(\"a'", "\": \"", "\"None\"", "\", \"", "k", "n"])),
+                3 => format!("substring({}, {}, {})", c, r.range(0, 4), r.range(0, 30)),
+                4 => format!("substring({}, {})", c, r.range(0, 12)),
+                5 => format!("{}({})", r.pick(&["toUpperCase", "toLowerCase", "parseHex"]), c),
+                6 => format!("concat(s, {}, n)", c),
+                _ => format!("length(concat({}))", c),
+            }
+        }
     }
 }
 
